@@ -1,5 +1,7 @@
 import CCVerif.Model.Parser
 import CCVerif.Model.AstQuery
+import CCVerif.Lemmas.ParserRangesLex
+import CCVerif.Lemmas.ParserShapeTop
 /-!
 # C06 — the parser builds the grammar's tree; node ranges delimit their source text
 
@@ -8,13 +10,23 @@ Models: `Model/Lexer.lean`, `Model/Parser.lean` (shared with C05), `Model/AstQue
 
 Proved here: uniqueness of the tree (trivially), the position arithmetic of both lexers
 (`mathPos_is_codepoint_offset`), the range bookkeeping of the semantic actions
-(`range_actions_nested`), instances of the whole parser on concrete texts with redundant
-parentheses / newlines / multi-byte symbols, and the specification of `FindMinimalNode`
-(`findMinimal_none_iff`, `findMinimal_sound`, `findMinimal_deepest`).
-NOT proved (statement only): `range_nested_statement` for the whole grammar; the demand "every
-admissible rendering of a tree parses to that tree with the renderer's ranges" (`Spec.Renders` of
-DESIGN.md) lives in the harness (`harness/syntax_gen.hpp`, `render`) — both are compared on every
-generated rendering by the correspondence run (`c06 tree`).
+(`range_actions_nested`), range nesting for the WHOLE grammar (`range_nested_tokens`: every tree
+`parseToks` returns on a token stream laid out left to right has nested, ordered, disjoint ranges;
+`range_nested`: every tree `parse` returns on a text, in both syntaxes, has `lo < hi` at every node,
+children inside the parent, siblings in order and disjoint — `Checker.WfRange`, `rangesNested`, and
+the same spelled out per node in `range_nested_nodes`; `findMinimal_deepest_parsed`: on a parsed tree
+`FindMinimalNode` returns the deepest covering node; the invariant over the twelve mutually recursive
+parser functions is in `Lemmas/ParserRanges*.lean`), instances of the whole parser on concrete texts
+with redundant parentheses / newlines / multi-byte symbols, the specification of `FindMinimalNode`
+(`findMinimal_none_iff`, `findMinimal_sound`, `findMinimal_deepest`), and "the parser builds the grammar's
+tree" in the sense of the checker's shape predicate: `parse_gives_WfParsed` (every parsed tree has the arities,
+token payloads, non-empty index lists and set / logic / declaration positions of `Checker.Wf`, at the top one of
+`e`, `[args] e`, `X:==`, `X:==…`, `S::=…`; second invariant over the twelve parser functions, on the RAW trees
+with their bracket nodes, `Lemmas/ParserShape*.lean`); `parse_gives_WfTop_partial` / `_counterexample`: C03's
+narrower `WfTop` misses exactly `S::=rhs` with a right-hand side that is not a set expression.
+NOT proved: the demand "every admissible rendering of a tree parses to that tree with the renderer's
+ranges" (`Spec.Renders` of DESIGN.md, `range_exact`) lives in the harness (`harness/syntax_gen.hpp`,
+`render`) — compared on every generated rendering by the correspondence run (`c06 tree`).
 -/
 namespace CCVerif.C06
 open CCVerif.Syntax CCVerif.Generated CCVerif.Lexer CCVerif.Parser CCVerif.AstQuery CCVerif.Strings
@@ -525,13 +537,162 @@ theorem range_actions_nested :
         Bool.and_eq_true, decide_eq_true_eq, Bool.and_true, and_true]
       omega
 
-/-- the demand for the whole parser: on a token stream laid out left to right every tree it returns
-has nested, ordered, disjoint ranges — NOT proved for the whole grammar (the induction over the
-twelve mutually recursive parser functions is not done); compared on every generated rendering -/
-def range_nested_statement : Prop :=
-  ∀ (ts : List LTok) (t : Ast), tokensOrdered ts = true → parseToks ts = some t → rangesNested t = true
+private theorem sorted_of_tokensOrdered : ∀ (ts : List LTok) (p : Int), tokensOrdered ts = true →
+    (∀ t ∈ ts.head?, p ≤ t.lo) → ParserRanges.Sorted 0 p ts
+  | [], _, _, _ => trivial
+  | [t], p, h, hp => by
+    simp only [tokensOrdered, decide_eq_true_eq] at h
+    rw [ParserRanges.sorted_cons]
+    exact ⟨hp t (by simp), by omega, trivial⟩
+  | a :: b :: r, p, h, hp => by
+    simp only [tokensOrdered, Bool.and_eq_true, decide_eq_true_eq] at h
+    rw [ParserRanges.sorted_cons]
+    exact ⟨hp a (by simp), by omega, sorted_of_tokensOrdered (b :: r) a.hi h.2 (by intro t ht; simp at ht; subst ht; exact h.1.2)⟩
+
+/-- **range_nested_tokens** (the former `range_nested_statement`, now proved for the whole grammar): on
+EVERY token stream laid out left to right (`lo ≤ hi`, each token ending at or before the start of the
+next — empty token ranges allowed) every tree the parser returns has nested, ordered, disjoint ranges:
+`lo ≤ hi` at every node, children within the parent, an earlier sibling ending at or before the start of
+a later one. All twelve parser functions, all semantic actions of `RSParser.cpp`, `TupleDeclaration`,
+`CreateSyntaxTree` (`Lemmas/ParserRanges.lean`, `ParserRangesTop.lean`: "the tree built so far lies
+between the tokens consumed", by induction on the fuel). -/
+theorem range_nested_tokens (ts : List LTok) (t : Ast) (ho : tokensOrdered ts = true) (h : parseToks ts = some t) :
+    rangesNested t = true := by
+  have hs : ParserRanges.Sorted 0 ((ts.head?.map (·.lo)).getD 0) ts :=
+    sorted_of_tokensOrdered ts _ ho (by intro t ht; cases ts with
+      | nil => simp at ht
+      | cons a r => simp at ht; subst ht; simp)
+  exact ParserRanges.nest_rangesNested (Int.le_refl 0) t
+    (ParserRanges.nest_parseToks (Int.le_refl 0) ts t _ hs h).1
+
+/-- **range_nested** (DESIGN §8 C06): for both syntaxes, EVERY text and every tree `parse` returns on it:
+every node has a non-empty range (`lo < hi`), the children of a node lie within it
+(`Checker.WfRange`, the hypothesis of the C03 / C04 checker theorems), siblings are ordered and pairwise
+disjoint (`rangesNested`), and the tree starts at or after position 0. Uses the lexer facts "token
+ranges are ordered and disjoint" (`Analysis.tiled_ordered`) and "a token other than END / INTERRUPT has
+a non-empty range" (`ParserRanges.tiled_strict`: `columns()` skips only `\r`, and no MATH rule other
+than the catch-all starts with `\r`). -/
+theorem range_nested (syn : Syn) (text : List Nat) (t : Ast) (h : parse syn text = some t) :
+    Checker.WfRange t ∧ rangesNested t = true ∧ 0 ≤ t.lo := by
+  obtain ⟨hn, h0⟩ := ParserRanges.parse_nest syn text t h
+  exact ⟨ParserRanges.nest_wfRange (Int.le_refl 1) t hn, ParserRanges.nest_rangesNested (by decide) t hn, h0⟩
+
+/-- `Nest` at the root gives `Nest` at every path -/
+private theorem nest_nodeAt {δ : Int} : ∀ (p : List Nat) (t n : Ast), ParserRanges.Nest δ t → nodeAt t p = some n →
+    ParserRanges.Nest δ n
+  | [], t, n, ht, hn => by simp [nodeAt] at hn; subst hn; exact ht
+  | i :: p, t, n, ht, hn => by
+    simp only [nodeAt] at hn
+    cases hk : t.kids[i]? with
+    | none => rw [hk] at hn; cases hn
+    | some k =>
+      rw [hk] at hn
+      exact nest_nodeAt p k n (ParserRanges.sibs_mem ht.sibs k (List.mem_of_getElem? hk)) hn
+
+private theorem sibs_pair {δ : Int} (hδ : 0 ≤ δ) : ∀ (l : List Ast) (p q : Int), ParserRanges.Sibs δ p l q →
+    ∀ (i j : Nat) (a b : Ast), i < j → l[i]? = some a → l[j]? = some b → a.hi ≤ b.lo
+  | [], _, _, _, i, j, a, b, _, ha, _ => by simp at ha
+  | x :: l, p, q, h, i, j, a, b, hij, ha, hb => by
+    rw [ParserRanges.sibs_cons] at h
+    cases j with
+    | zero => omega
+    | succ j =>
+      have hb' : l[j]? = some b := by simpa using hb
+      cases i with
+      | zero =>
+        simp at ha; subst ha
+        exact (ParserRanges.sibs_within hδ h.2.2 b (List.mem_of_getElem? hb')).1
+      | succ i =>
+        exact sibs_pair hδ l _ _ h.2.2 i j a b (by omega) (by simpa using ha) hb'
+
+/-- **range_nested_nodes**: `range_nested` spelled out node by node, without auxiliary predicates: for
+every node `n` of a parsed tree (at any path): `n.lo < n.hi`; every child lies within `n`; and of two
+children the earlier one ends at or before the start of the later one. -/
+theorem range_nested_nodes (syn : Syn) (text : List Nat) (t : Ast) (h : parse syn text = some t)
+    (path : List Nat) (n : Ast) (hn : nodeAt t path = some n) :
+    n.lo < n.hi ∧
+    (∀ (i : Nat) (a : Ast), n.kids[i]? = some a → n.lo ≤ a.lo ∧ a.hi ≤ n.hi) ∧
+    (∀ (i j : Nat) (a b : Ast), i < j → n.kids[i]? = some a → n.kids[j]? = some b → a.hi ≤ b.lo) := by
+  have hN := nest_nodeAt path t n (ParserRanges.parse_nest syn text t h).1 hn
+  have hle := hN.le
+  refine ⟨by omega, ?_, ?_⟩
+  · intro i a ha
+    exact ParserRanges.sibs_within (by decide) hN.sibs a (List.mem_of_getElem? ha)
+  · exact sibs_pair (by decide) n.kids _ _ hN.sibs
+
+/-- **findMinimal_deepest_parsed**: on every parsed tree (no hypothesis on the ranges any more) and every
+query range that is not inverted, every node that covers the query lies on the path to the node
+`FindMinimalNode` returns: the answer is the deepest covering node, and it is unique. -/
+theorem findMinimal_deepest_parsed (syn : Syn) (text : List Nat) (t : Ast) (h : parse syn text = some t)
+    (q : StrRange) (hq : q.start ≤ q.finish) (p p' : List Nat) (n' : Ast)
+    (hf : findMinimal q t = some p) (hn : nodeAt t p' = some n') (hc : covers q n' = true) : p' <+: p :=
+  findMinimal_deepest q hq p' t p n' (range_nested syn text t h).2.1 hf hn hc
 
 def units (s : String) : List Nat := s.toList.map Char.toNat
+
+/-! ## the shape of parsed trees -/
+
+/-- **parse_gives_WfParsed**: for both syntaxes, EVERY text and every tree `parse` returns on it, the tree has
+the shape `Checker.WfParsed Γ xs` for some list `xs` of declared argument names: every node has the arity, the
+token payload (identifier spelling, `int`, non-empty index tuple of `pr/Pr/Fi`) and the set / logic /
+declaration / block positions that the grammar gives it (`Checker.Wf`, the hypothesis of the C03 theorems), and
+the whole input is `e`, `[x₁∈D₁,…] e`, `X:==`, `X:==e`, `X:==[…] e` or `S::=…`. The one hypothesis concerns the
+context, not the parser: a function name occurring in the text is not LOGIC-typed in `Γ` (`Wf.sCall`; true of
+every `Schema`). Proof: `ParserShape.parserWf` — every parser function, given tokens with the payload of their
+kind, returns a RAW tree (bracket nodes inside) that `CreateSyntaxTree` turns into a `Wf` tree of the
+category of its nonterminal; `TupleDeclaration` turns raw tuples into declarations. -/
+theorem parse_gives_WfParsed (syn : Syn) (text : List Nat) (Γ : Types.Ctx) (t : Ast) (h : parse syn text = some t)
+    (hΓ : ∀ ts, lex syn text = some ts → ParserShape.FuncsNotLogic Γ ts) : ∃ xs, Checker.WfParsed Γ xs t :=
+  ParserShape.parse_wfParsed syn text t h hΓ
+
+/-- **parse_gives_WfTop_partial**: C03's shape `WfTop` holds of every parsed tree EXCEPT a structure declaration
+`S::=rhs` whose right-hand side is not a set expression (a logic expression or a function definition — the
+grammar has `global_name STRUCT no_declaration`). Missing for the full `parse_gives_WfTop`: nothing — it is
+false, see `parse_gives_WfTop_counterexample`; the checker theorems are extended to the exceptional trees in
+`Checker.check_facts_parsed`. -/
+theorem parse_gives_WfTop_partial (syn : Syn) (text : List Nat) (Γ : Types.Ctx) (t : Ast) (h : parse syn text = some t)
+    (hΓ : ∀ ts, lex syn text = some ts → ParserShape.FuncsNotLogic Γ ts) :
+    (∃ xs, Checker.WfTop Γ xs t) ∨
+    (∃ d lo hi nm ex xs, t = .node .PUNC_STRUCT d lo hi [nm, ex] ∧ Checker.WfDef Γ xs ex ∧ ¬ Checker.Wf Γ .S ex) := by
+  obtain ⟨xs, hw⟩ := parse_gives_WfParsed syn text Γ t h hΓ
+  cases hw with
+  | top h => exact Or.inl ⟨xs, h⟩
+  | structAny hd =>
+    rename_i d lo hi nm ex
+    by_cases hS : Checker.Wf Γ .S ex
+    · exact Or.inl ⟨[], .struct hS⟩
+    · exact Or.inr ⟨d, lo, hi, nm, ex, xs, rfl, hd, hS⟩
+
+/-- `S7::=1=1` as the parser returns it -/
+def exStructLogic : Ast :=
+  .node .PUNC_STRUCT .none 0 8 [.node .ID_GLOBAL (.text "S7") 0 2 [],
+    .node .EQUAL .none 5 8 [.node .LIT_INTEGER (.int 1) 5 6 [], .node .LIT_INTEGER (.int 1) 7 8 []]]
+
+/-- **parse_gives_WfTop_counterexample**: `parse_gives_WfTop` (every parsed tree is `WfTop`) is FALSE: the text
+`S7::=1=1` parses (the real grammar accepts it too: `global_name STRUCT no_declaration`), the tree is not
+`WfTop` in any context (`WfTop.struct` demands a set expression on the right), and the checker rejects it with the
+critical error `globalStructure` at the end of the name. -/
+theorem parse_gives_WfTop_counterexample :
+    parse .math (units "S7::=1=1") = some exStructLogic ∧ (∀ Γ xs, ¬ Checker.WfTop Γ xs exStructLogic) ∧
+    (Checker.check {} exStructLogic).out = .fail ∧ (Checker.check {} exStructLogic).errs = [(0x881C, 2)] := by
+  refine ⟨ParserRanges.parse_eq_of_same _ _ _ (by decide +kernel), ?_, by decide +kernel, by decide +kernel⟩
+  intro Γ xs h
+  unfold exStructLogic at h
+  cases h with
+  | ofDef hd =>
+    cases hd with
+    | expr h =>
+      rcases h with h | h
+      · cases h <;> simp_all
+      · cases h <;> simp_all
+  | struct h => cases h <;> simp_all
+
+/-- non-vacuity of `parse_gives_WfParsed` / `parse_gives_WfTop_partial`: the hypothesis on the context holds for
+the empty context on a text with a function call inside a declared function, which parses -/
+example : (∀ ts, lex .math (units "F2:==[a∈ℬ(X1)] F1[a,pr1(a)]∪{a}") = some ts → ParserShape.FuncsNotLogic {} ts) ∧
+    (parse .math (units "F2:==[a∈ℬ(X1)] F1[a,pr1(a)]∪{a}")).isSome = true :=
+  ⟨ParserShape.funcsNotLogic_of_check (by decide +kernel), by decide +kernel⟩
+
 
 /-- the parse of `text` is exactly `t` (positions included) -/
 def parsesTo (syn : Syn) (text : List Nat) (t : Ast) : Bool :=
@@ -565,8 +726,19 @@ theorem range_instances :
       (.node .IN .none 0 8 [.node .ID_LOCAL (.text "a") 0 1 [], .node .ID_GLOBAL (.text "X1") 6 8 []]) = true := by
   decide +kernel
 
-/-- non-vacuity of `range_nested_statement`'s conclusion on a parsed tree -/
-example : (parse .math (units "D{(a,b)∈X1×X2 | pr1(a)=b & ¬(a∈b ∨ b∈a)}")).map rangesNested = some true := by
+/-- non-vacuity of `range_nested` / `range_nested_nodes` / `findMinimal_deepest_parsed`: a text with a
+tuple declaration, a product, projections, redundant parentheses and nested connectives parses (20 nodes),
+and the conclusion can be evaluated on the tree -/
+example : (parse .math (units "D{(a,b)∈X1×X2 | pr1(a)=b & ¬(a∈b ∨ b∈a)}")).map rangesNested = some true ∧
+    (parse .math (units "D{(a,b)∈X1×X2 | pr1(a)=b & ¬(a∈b ∨ b∈a)}")).map (fun t => (allNodes [] t).length) = some 20 ∧
+    (parse .math (units "D{(a,b)∈X1×X2 | pr1(a)=b & ¬(a∈b ∨ b∈a)}")).map (findMinimal ⟨20, 21⟩) = some (some [2, 0, 0, 0]) := by
+  decide +kernel
+
+/-- non-vacuity of `range_nested_tokens`: a hand-made token stream with an EMPTY token range (`a` at
+`[3,3)`, which no lexer produces) is `tokensOrdered` and parses -/
+example :
+    let ts : List LTok := [⟨.ID_LOCAL, .text "a", 3, 3⟩, ⟨.PLUS, .none, 3, 4⟩, ⟨.ID_LOCAL, .text "b", 7, 8⟩, ⟨.END, .none, 8, 8⟩]
+    tokensOrdered ts = true ∧ (parseToks ts).map (fun t => (t.lo, t.hi, rangesNested t)) = some (3, 8, true) := by
   decide +kernel
 
 end CCVerif.C06
